@@ -9,7 +9,7 @@
 From Coq Require Import List NArith Arith Bool.
 Import ListNotations.
 From RH Require Import Text.Contents Text.ContentsProofs Text.Reader Text.ReaderProofs Text.ReaderInv
-  Lex.LangLexer Lex.LexSpec Lex.LangLexerProofs Lex.LangLexerSlices Lex.C11Examples.
+  Lex.LangLexer Lex.LexSpec Lex.LangLexerProofs Lex.LangLexerSlices Lex.LangLexerNoCrash Lex.LangLexerComments Lex.LangLexerText Lex.LangLexerRelex Lex.C11Examples.
 Open Scope N_scope.
 
 (* (a) The tokenizer terminates on every input (regression theorem of finding F5): with fuel
@@ -27,6 +27,22 @@ Proof. intros d kws F HF fuel t r t' H. exact (proj1 (proj2 (tk_pop_props d kws 
 (* The code before the repair (lookahead error propagated without consuming) loops on "x€". *)
 Theorem C11_lex_old_refuted : lex_all_old [120; 8364] = Aborted OutOfFuel.
 Proof. exact lex_old_refuted. Qed.
+
+(* The tokenizer never panics: no read inside a multi-byte character, and the `unwrap`s of the
+   integer-exponent arm (`peek`) and of parse_bit_string (`value_at`) cannot fail.  Hence total
+   correctness of the modelled front end: every input yields tokens and diagnostics. *)
+Theorem C11_lex_no_crash : forall s, lex_all s <> Aborted Crash.
+Proof. exact lex_no_crash. Qed.
+Theorem C11_lex_all_done : forall s, exists toks diags, lex_all s = Done toks diags.
+Proof. exact lex_all_done. Qed.
+Theorem C11_lex_latin1_file_done : forall bytes, exists toks diags, lex_latin1_file bytes = Done toks diags.
+Proof. exact lex_latin1_file_done. Qed.
+(* bit_string_value_at: parse_bit_string entered after the literal's first characters l0 (length,
+   base specifier, opening quote; Latin-1, one line) were consumed from the token start s0 *)
+Theorem C11_parse_bit_string_never_panics : forall d F, Forall lf_last d ->
+  forall base len s0 l0 st r st', RInv d s0 -> lrun d l0 s0 st -> l0 <> [] ->
+    parse_bit_string d F base len (snd (r_pos s0)) st = (r, st') -> r <> Ab Crash /\ RInv d st'.
+Proof. exact parse_bit_string_nocr. Qed.
 
 (* (b) Reader invariant: `idx` (UTF-8 bytes) and `character` (UTF-16 units) denote the same character
    boundary of line `line`.  It holds initially, every pop preserves it, and under it get_char never
@@ -62,21 +78,45 @@ Theorem C11_token_ranges_ordered_gen : forall kws fuel s toks diags,
   (length s < fuel)%nat -> lex_gen kws true fuel s = Done toks diags -> ranges_sorted (0, 0) toks.
 Proof. exact token_ranges_ordered_gen. Qed.
 
-(* (d) partial — token_text_exact_partial: the range of every token is delimited by two character
-   boundaries of the text (reader states satisfying the invariant), and the text between the two
-   positions is exactly the non-empty string of characters the reader consumed from the token's
-   start to its end.
-   NOT proved (explored on every run by the harness oracle, see checks/c11.py), full statements:
-     token_text_exact : forall s toks diags, lex_all s = Done toks diags ->
-        Forall (fun t => lexeme_ok t (slice_of_text s (t_s t) (t_e t)) = true) toks.
-     relex : forall s toks diags, lex_all s = Done toks diags ->
-        Forall (fun t => relex_prop t (slice_of_text s (t_s t) (t_e t))) toks.
-     comments_between : leading/trailing comments lie between the neighbouring tokens.
-   What is missing for them: per arm of parse_token, that the consumed characters spell the lexeme
-   of the (kind, value) returned. *)
-Theorem C11_token_text_exact_partial : forall s toks diags,
+(* Attached comments lie between their neighbours: for every token of the stream, its leading
+   comments are ordered (start <= end, each starts at or after the previous one's end), begin at or
+   after `lo` (the end of the previous token and of its trailing comment) and end at or before the
+   token's start; its trailing comment starts at or after the token's end; the next token's
+   comments start after it. *)
+Theorem C11_comments_between : forall s toks diags,
+  lex_all s = Done toks diags -> stream_comments (0, 0) toks.
+Proof. exact comments_between. Qed.
+
+(* (d) token_text_exact: for every token the front end produces from any input, the source text
+   between the token's start and end position (slice_of_text: lines split at LF, CR or CRLF, columns
+   counted in UTF-16 code units; defined in Lex/LexSpec.v without reference to the reader) is exactly
+   that token's lexeme (lexeme_ok: identifiers and keywords up to letter case, string literals and
+   extended identifiers with their quote doubled, abstract and bit-string literals: their text,
+   delimiters: their spelling). *)
+Theorem C11_token_text_exact : forall s toks diags, lex_all s = Done toks diags ->
+  Forall (fun t => lexeme_ok t (slice_of_text s (t_s t) (t_e t)) = true) toks.
+Proof. exact token_text_exact. Qed.
+(* in more detail: the range of every token is delimited by two character boundaries of the text
+   (reader states satisfying the invariant) and the text between them is the non-empty string of
+   characters the reader consumed from the token's start to its end *)
+Theorem C11_token_slices_consumed : forall s toks diags,
   lex_all s = Done toks diags -> Forall (tok_slice s) toks.
 Proof. exact token_slices_consumed. Qed.
+(* (e) relex — proved for delimiter tokens and character literals (relex_partial); for the other
+   kinds it is explored on every run by the implementation-level oracle of the harness
+   (checks/c11.py) and tied to the model by the differential run.  Full statement:
+     relex : forall s toks diags, lex_all s = Done toks diags ->
+        Forall (fun t => relex_prop t (slice_of_text s (t_s t) (t_e t))) toks.
+   What is missing: a simulation between the reader on the whole document and the reader on the
+   one-lexeme document (the tokenizer looks one character ahead; identifiers, literals and strings
+   need it for arbitrary lengths).  The statement was false before commit 10bee32
+   (C11_relex_old_refuted below). *)
+Theorem C11_relex_partial : forall s toks diags, lex_all s = Done toks diags ->
+  Forall (fun t =>
+    ((t_val t = VNone /\ In (t_kind t) delim_kinds) \/
+     (t_kind t = KCharacter /\ exists c, t_val t = VChar c /\ c < 256 /\ c <> 13)) ->
+    relex_prop t (slice_of_text s (t_s t) (t_e t))) toks.
+Proof. exact relex_partial. Qed.
 
 (* (f) Files are decoded as ISO-8859-1: iso_8859_1_to_utf8 followed by UTF-8 decoding is the identity
    on code points 0..255, every character is one UTF-16 unit, so a column is a byte offset. *)
@@ -113,20 +153,29 @@ Example C11_f24_fixed :
 Proof. exact f24_fixed. Qed.
 
 Check C11_lex_total : forall s, lex_all s <> Aborted OutOfFuel.
-Check C11_token_text_exact_partial : forall s toks diags, lex_all s = Done toks diags -> Forall (tok_slice s) toks.
+Check C11_lex_all_done : forall s, exists toks diags, lex_all s = Done toks diags.
+Check C11_token_text_exact : forall s toks diags, lex_all s = Done toks diags ->
+  Forall (fun t => lexeme_ok t (slice_of_text s (t_s t) (t_e t)) = true) toks.
 Check C11_token_ranges_ordered : forall s toks diags, lex_all s = Done toks diags -> ranges_sorted (0, 0) toks.
 
 Print Assumptions C11_lex_total.
 Print Assumptions C11_lex_total_gen.
 Print Assumptions C11_pop_progress.
 Print Assumptions C11_lex_old_refuted.
+Print Assumptions C11_lex_no_crash.
+Print Assumptions C11_lex_all_done.
+Print Assumptions C11_lex_latin1_file_done.
+Print Assumptions C11_parse_bit_string_never_panics.
 Print Assumptions C11_reader_inv_start.
 Print Assumptions C11_reader_inv_preserved.
 Print Assumptions C11_reader_inv_reachable.
 Print Assumptions C11_reader_never_bad.
 Print Assumptions C11_consumed_is_slice.
 Print Assumptions C11_bit_string_value_at.
-Print Assumptions C11_token_text_exact_partial.
+Print Assumptions C11_comments_between.
+Print Assumptions C11_token_text_exact.
+Print Assumptions C11_token_slices_consumed.
+Print Assumptions C11_relex_partial.
 Print Assumptions C11_decode_latin1_id.
 Print Assumptions C11_latin1_columns.
 Print Assumptions C11_token_ranges_ordered.
